@@ -1,7 +1,7 @@
 (* C05/Run.v — encoders for the correspondence run.
    Events as (code, path): 0 ConfigErr, 1 VersionMismatch, 2 BadPath, 3 Parsed p, 4 ParseRootErr, 5 ParsePanic,
    6 ResolveErr, 7 Filtered p, 8 Formatted p, 9 Emitted p, 10 EmitIoErr p (path 0 when the event has none).
-   Outcomes: 0 POk, 1 PRecoverable, 2 PFatal, 3 PPanic, 4 PMissing, 5 PAmbiguous.
+   Outcomes: 0 POk, 1 PRecoverable, 2 PFatal, 3 PPanic, 4 PMissing, 5 PAmbiguous, 6 PLexFatal.
    A file: (path, outcome, (decl_skip, inner_skip, ignored), (has_diff, io_err)). *)
 From V Require Import Base.Text C20.Model C06.Model C05.Model.
 Open Scope N_scope.
@@ -26,7 +26,7 @@ Definition run_failure_and_emit (tr : list (N * N)) : bool :=
   existsb is_failure (map ev_of tr) && existsb is_emitted (map ev_of tr).
 
 Definition outcome_of (n : N) : outcome :=
-  match n with 0 => POk | 1 => PRecoverable | 2 => PFatal | 3 => PPanic | 4 => PMissing | _ => PAmbiguous end.
+  match n with 0 => POk | 1 => PRecoverable | 2 => PFatal | 3 => PPanic | 4 => PMissing | 5 => PAmbiguous | _ => PLexFatal end.
 Definition file_enc := (N * N * (bool * bool * bool) * (bool * bool))%type.
 Definition info_of (x : file_enc) : ninfo :=
   match x with
